@@ -366,10 +366,16 @@ DI = [(n, "!0 = " + t + "\n" + FOOT, fr) for n, t, fr in DI_RAW + DI_BOUNDS + DI
     ("DIGlobalVariableExpression.numbered-expr", "!0 = !DIGlobalVariableExpression(var: !96, expr: !97)\n" + FOOT + "!97 = !DIExpression(DW_OP_deref)\n", ["var: !96", "expr: !97", "!97 = !DIExpression(DW_OP_deref)"]),
     ("md.numbered-diexpression-in-tuple", "!0 = !{!97, !97}\n!97 = !DIExpression(DW_OP_plus_uconst, 3)\n", ["!0 = !{!97, !97}"]),
     ("md.attachments-multi", "@g = global i32 0, !a !0, !b !1\n\n!0 = !{}\n!1 = !{}\n", ["!a !0", "!b !1"]),
-    ("ifunc.expression-resolver", "@i = ifunc void (), bitcast (i8* ()* @r to void ()* ()*)\n@k = ifunc i32 (i32), i32 (i32)* ()* bitcast (i8* ()* @r to i32 (i32)* ()*)\n\ndefine i8* @r() {\n\tret i8* null\n}\n",
-     ["@i = ifunc void (), void ()* ()* bitcast (i8* ()* @r to void ()* ()*)", "@k = ifunc i32 (i32), i32 (i32)* ()* bitcast (i8* ()* @r to i32 (i32)* ()*)"]),
     ("uselistorder", "@g = global i32 0\n@p = global i32* @g\n@q = global i32* @g\n\nuselistorder i32* @g, { 1, 0 }\n", ["uselistorder i32* @g, { 1, 0 }"]),
     ("uselistorder_bb", "define void @f() {\nb:\n\tbr label %b\n}\n\nuselistorder_bb @f, %b, { 1, 0 }\n", ["uselistorder_bb @f, %b, { 1, 0 }"]),
+]
+
+
+# entries that concern neither metadata nor a clause family
+MISC = [
+    ("cc.number-one", "declare cc 1 void @h()\n", ["cc 1"]),
+    ("ifunc.expression-resolver", "@i = ifunc void (), bitcast (i8* ()* @r to void ()* ()*)\n@k = ifunc i32 (i32), i32 (i32)* ()* bitcast (i8* ()* @r to i32 (i32)* ()*)\n\ndefine i8* @r() {\n\tret i8* null\n}\n",
+     ["@i = ifunc void (), void ()* ()* bitcast (i8* ()* @r to void ()* ()*)", "@k = ifunc i32 (i32), i32 (i32)* ()* bitcast (i8* ()* @r to i32 (i32)* ()*)"]),
 ]
 
 
@@ -613,6 +619,55 @@ def order_entries():
     return out
 
 
+def round13_entries():
+    """closing the misses of seed round 13"""
+    out = []
+    # every valid floating-point extension / truncation between the six kinds (by bit width: half 16 < float 32 < double 64 < x86_fp80 80 < fp128 = ppc_fp128 128; the two
+    # 128-bit kinds do not convert into each other), as instruction and constant expression, scalar and vector
+    order = ["half", "float", "double", "x86_fp80"]
+    pairs = [(a, b) for i, a in enumerate(order) for b in order[i + 1:]] + [(a, b) for a in order for b in ("fp128", "ppc_fp128")]
+    zero = {"half": "0.0", "float": "0.0", "double": "0.0", "x86_fp80": "0xK00000000000000000000", "fp128": "0xL00000000000000000000000000000000", "ppc_fp128": "0xM00000000000000000000000000000000"}
+    for a, b in pairs:
+        for op, x, y in (("fpext", a, b), ("fptrunc", b, a)):
+            nm = "%s.%s-%s" % (op, x, y)
+            out.append(("fpconv.inst." + nm, "define %s @f(%s %%x) {\n\t%%r = %s %s %%x to %s\n\tret %s %%r\n}\n" % (y, x, op, x, y, y), ["%%r = %s %s %%x to %s" % (op, x, y)]))
+            out.append(("fpconv.vec." + nm, "define <2 x %s> @f(<2 x %s> %%x) {\n\t%%r = %s <2 x %s> %%x to <2 x %s>\n\tret <2 x %s> %%r\n}\n" % (y, x, op, x, y, y), ["%%r = %s <2 x %s> %%x to <2 x %s>" % (op, x, y)]))
+            out.append(("fpconv.expr." + nm, "@g = global %s %s (%s %s to %s)\n" % (y, op, x, zero[x], y), ["%s (%s %s to %s)" % (op, x, zero[x], y)]))
+    # fast-math flag sets of five and more members (a printer that abbreviates `all flags` to `fast` must mean all seven), on every instruction that takes them
+    five = "nnan ninf nsz arcp contract"
+    for fl in (five, five + " afn", five + " reassoc", five + " afn reassoc", "reassoc afn contract arcp nsz ninf nnan", "nnan ninf nsz arcp contract afn reassoc fast", "fast"):
+        tag = fl.replace(" ", "-")
+        out.append(("fmf-set.fneg." + tag, "define double @f(double %%a) {\n\t%%r = fneg %s double %%a\n\tret double %%r\n}\n" % fl, ["%%r = fneg %s double %%a" % fl]))
+        for op in ("fadd", "fsub", "fmul", "fdiv", "frem"):
+            out.append(("fmf-set.%s.%s" % (op, tag), "define double @f(double %%a) {\n\t%%r = %s %s double %%a, %%a\n\tret double %%r\n}\n" % (op, fl), ["%%r = %s %s double %%a, %%a" % (op, fl)]))
+        out.append(("fmf-set.fcmp." + tag, "define i1 @f(double %%a) {\n\t%%r = fcmp %s oeq double %%a, %%a\n\tret i1 %%r\n}\n" % fl, ["%%r = fcmp %s oeq double %%a, %%a" % fl]))
+        out.append(("fmf-set.call." + tag, "declare double @g(double %%0)\n\ndefine double @f(double %%a) {\n\t%%r = call %s double @g(double %%a)\n\tret double %%r\n}\n" % fl, ["%%r = call %s double @g(double %%a)" % fl]))
+        out.append(("fmf-set.select." + tag, "define double @f(i1 %%c, double %%a) {\n\t%%r = select %s i1 %%c, double %%a, double %%a\n\tret double %%r\n}\n" % fl, ["%%r = select %s i1 %%c, double %%a, double %%a" % fl]))
+    # fast not written first (LLVM accepts the flags in any order)
+    for fl in ("nnan fast", "arcp contract fast", "fast nnan"):
+        for op in ("fadd", "fsub", "fmul", "fdiv", "frem"):
+            out.append(("fmf-fast-pos.%s.%s" % (op, fl.replace(" ", "-")), "define float @f(float %%a) {\n\t%%r = %s %s float %%a, %%a\n\tret float %%r\n}\n" % (op, fl), ["%%r = %s %s float %%a, %%a" % (op, fl)]))
+    # RUNS of one overflow flag (llir keeps the flags as a list: `nsw nsw nsw` stays three flags), instructions and constant expressions
+    for op in ("add", "sub", "mul", "shl"):
+        for fl in ("nsw nsw nsw", "nuw nuw nuw nuw", "nsw nsw nuw nuw nuw", "nuw nsw nsw nsw"):
+            tag = fl.replace(" ", "-")
+            out.append(("ovf-run.%s.%s" % (op, tag), "define i32 @f(i32 %%a, i32 %%b) {\n\t%%r = %s %s i32 %%a, %%b\n\tret i32 %%r\n}\n" % (op, fl), ["%%r = %s %s i32 %%a, %%b" % (op, fl)]))
+            out.append(("ovf-run.expr.%s.%s" % (op, tag), "@g = global i32 %s %s (i32 ptrtoint (i32* @g to i32), i32 1)\n" % (op, fl), ["%s %s (" % (op, fl)]))
+    # entities WITHOUT A NAME that are otherwise alike (two unnamed functions of one type with equally named blocks): every kind of reference to each of them
+    twin = ("@a = global i8* blockaddress(@0, %b)\n@b = global i8* blockaddress(@1, %b)\n@c = global void ()* dso_local_equivalent @0\n@d = global void ()* dso_local_equivalent @1\n"
+            "@e = global void ()* no_cfi @0\n@f = global void ()* no_cfi @1\n@g = global [2 x void ()*] [void ()* @1, void ()* @0]\n\n"
+            "define void @0() {\nb:\n\tret void\n}\n\ndefine void @1() {\nb:\n\tcall void @0()\n\tcall void @1()\n\tret void\n}\n")
+    out.append(("unnamed-twins.function-references", twin, ["blockaddress(@0, %b)", "blockaddress(@1, %b)", "dso_local_equivalent @0", "dso_local_equivalent @1", "no_cfi @0", "no_cfi @1",
+                                                            "[void ()* @1, void ()* @0]", "call void @0()", "call void @1()"]))
+    out.append(("unnamed-twins.blocks", "@t = global [3 x i8*] [i8* blockaddress(@f, %1), i8* blockaddress(@f, %2), i8* blockaddress(@f, %0)]\n\ndefine void @f() {\n\tbr label %1\n\n1:\n\tbr label %2\n\n2:\n\tret void\n}\n",
+                ["[i8* blockaddress(@f, %1), i8* blockaddress(@f, %2), i8* blockaddress(@f, %0)]"]))
+    # a call / invoke whose RETURN type is a pointer to a function, written by the return type alone (not the legacy callee-type spelling)
+    out.append(("call.returns-function-pointer", "declare i32 ()* @getfp()\n\ndefine i32 @f() {\n\t%p = call i32 ()* @getfp()\n\t%r = call i32 %p()\n\tret i32 %r\n}\n", ["%p = call i32 ()* @getfp()", "%r = call i32 %p()"]))
+    out.append(("invoke.returns-function-pointer", "declare i32 ()* @getfp()\n\ndefine i32 ()* @f() personality i8* null {\n\t%p = invoke i32 ()* @getfp()\n\t\tto label %ok unwind label %bad\n\nok:\n\tret i32 ()* %p\n\nbad:\n\t%l = landingpad i8\n\t\tcleanup\n\tret i32 ()* null\n}\n",
+                ["%p = invoke i32 ()* @getfp()", "ret i32 ()* %p"]))
+    return out
+
+
 def layout_entries():
     """a value USED in a block that is written BEFORE the block that defines it (legal: the definition dominates through the CFG): the parser types forward
     references from the scaffold it builds in a first pass, so a constant next to such an operand is built at the scaffold's type"""
@@ -720,4 +775,4 @@ def layout_entries():
 
 
 def all_entries(rows):
-    return kw_entries(rows) + STRUCTURED + NAMED_NONSTRUCT + inst_entries() + DI + comdat_entries() + flag_cross_entries() + addrspace_cross_entries() + written_type_entries() + REPEATS + UINT_LITS + order_entries() + DI_REFS + clausegen.all_entries() + layout_entries()
+    return kw_entries(rows) + STRUCTURED + NAMED_NONSTRUCT + inst_entries() + DI + MISC + comdat_entries() + flag_cross_entries() + addrspace_cross_entries() + written_type_entries() + REPEATS + UINT_LITS + order_entries() + DI_REFS + clausegen.all_entries() + layout_entries() + round13_entries()
